@@ -117,7 +117,11 @@ fn gen_family(seed: u64, fi: usize, stats: &mut BTreeMap<String, usize>) -> Fami
     // and removed again (AbiRemoved) in a later version, so that some written versions lie inside,
     // below and above the closed range of a field that is no longer in memory
     let scripted = fi % 6 == 1;
-    let nver = if scripted { g.rng.range(3, 4) } else { g.rng.range(1, 4) }; // 2..5 program versions
+    // every sixth family (offset 2): a primitive field is added to the root in version 1 (default from
+    // the Default trait) and changes its type with a conversion in version 2, so data of version 0
+    // (before the field existed), 1 (old type) and 2 (new type) all have to load later
+    let scripted_conv = fi % 6 == 2;
+    let nver = if scripted { g.rng.range(3, 4) } else if scripted_conv { g.rng.range(2, 4) } else { g.rng.range(1, 4) }; // 2..5 program versions
     let script_remove_at = if scripted { g.rng.range(2, nver) as u32 } else { 0 };
     let mut fn_ctr = 0usize;
     for v in 1..=nver as u32 {
@@ -137,16 +141,27 @@ fn gen_family(seed: u64, fi: usize, stats: &mut BTreeMap<String, usize>) -> Fami
             } else {
                 0
             };
-            if script_step != 0 {
+            let script_step = if scripted_conv && e == 0 && v == 1 {
+                3
+            } else if scripted_conv && e == 0 && v == 2 {
+                4
+            } else {
+                script_step
+            };
+            if script_step == 1 || script_step == 2 {
                 di = 1;
+            }
+            if script_step == 3 || script_step == 4 {
+                di = 2;
             }
             g.def_limit = di; // new field types may only refer to earlier definitions
             let is_enum = g.uni.defs[di].is_enum();
             let packed_def = di == 1;
             let mut roll = g.rng.below(if is_enum { 3 } else { 12 });
             match script_step {
-                1 => roll = 0,
+                1 | 3 => roll = 0,
                 2 => roll = 5,
+                4 => roll = 10,
                 _ => {}
             }
             if is_enum {
@@ -176,8 +191,10 @@ fn gen_family(seed: u64, fi: usize, stats: &mut BTreeMap<String, usize>) -> Fami
                     let pos = g.rng.range(0, nfields);
                     let mut f = Field::plain(&namer.next(), Ty::Unit);
                     f.vfrom = v;
-                    let kind = g.rng.below(4);
-                    if packed_def {
+                    let kind = if script_step == 3 { 3 } else { g.rng.below(4) };
+                    if script_step == 3 {
+                        f.ty = Ty::Prim(*g.rng.pick(&[Prim::U8, Prim::U16, Prim::U32, Prim::I16]));
+                    } else if packed_def {
                         // keep the packed candidate homogeneous
                         let p = match &g.uni.defs[di].kind {
                             DefKind::Struct { fields, .. } => fields.iter().find_map(|f| if let Ty::Prim(p) = f.ty { Some(p) } else { None }).unwrap_or(Prim::U32),
@@ -337,7 +354,7 @@ fn gen_family(seed: u64, fi: usize, stats: &mut BTreeMap<String, usize>) -> Fami
                         DefKind::Struct { fields, .. } => cands.iter().copied().filter(|i| fields[*i].vfrom > 0).collect(),
                         _ => vec![],
                     };
-                    let fi2 = if !added_later.is_empty() && g.rng.chance(1, 2) { *g.rng.pick(&added_later) } else { *g.rng.pick(&cands) };
+                    let fi2 = if !added_later.is_empty() && (script_step == 4 || g.rng.chance(1, 2)) { *g.rng.pick(&added_later) } else { *g.rng.pick(&cands) };
                     fn_ctr += 1;
                     let how = g.rng.below(4);
                     if let DefKind::Struct { fields, .. } = &mut g.uni.defs[di].kind {
